@@ -370,7 +370,7 @@ func (o *OpenAPI3Importer) buildField(name string, prop *openapi3.SchemaRef) (Fi
 		return f, nil
 	}
 
-	defer o.pushName(name)()
+	defer o.pushName(escapeUnsafeSyslChars(name))()
 
 	if isArray && prop.Value.Items.Ref != "" {
 		f.Type = &Array{Items: nameOnlyType(o.typeNameFromSchemaRef(prop.Value.Items))}
